@@ -95,6 +95,10 @@ fn outline_tasks() -> Vec<(&'static str, &'static str, bool)> {
         ("not an equivalence", "definition: forall X (d(X) -> q(X)).", true),
         ("the defined atom on the right-hand side only", "definition: forall X (q(X) and p(X) <-> d(X)).", true),
         ("existential instead of universal closure", "definition: exists X (d(X) <-> q(X)).", true),
+        ("the defined predicate is a private predicate of the right program (body only)", "definition: forall X (u(X) <-> q(X)).", true),
+        ("control: the body mentions a private predicate of the right program", "definition: forall X (d(X) <-> u(X) and q(X)). lemma: forall X (d(X) -> q(X)).", false),
+        ("the defined predicate is an output predicate that occurs in no program", "definition: forall X (r(X) <-> q(X)).", true),
+        ("the defined predicate has the name of a task predicate at another arity: fresh, accepted", "definition: forall X Y (q(X, Y) <-> q(X) and q(Y)). lemma: forall X (q(X, X) -> q(X)).", false),
         ("control: lemmas only", "lemma: forall X (p(X) -> q(X)). lemma(forward): forall X (q(X) -> p(X)).", false),
     ]
 }
@@ -150,8 +154,8 @@ pub fn check(runs: &mut usize, fails: &mut Vec<Failure>) {
     }
     for (why, outline, refused) in outline_tasks() {
         *runs += 1;
-        let files = vec![("a.lp", "p(X) :- t(X). t(X) :- q(X)."), ("b.lp", "p(X) :- q(X)."), ("g.ug", "input: q/1. output: p/1."), ("o.po", outline)];
-        let input = format!("anthem verify --equivalence external a.lp=`p(X) :- t(X). t(X) :- q(X).` b.lp=`p(X) :- q(X).` g.ug=`input: q/1. output: p/1.` o.po=`{outline}`  [{why}]");
+        let files = vec![("a.lp", "p(X) :- t(X). t(X) :- q(X)."), ("b.lp", "p(X) :- q(X), not u(X)."), ("g.ug", "input: q/1. output: p/1. output: r/1."), ("o.po", outline)];
+        let input = format!("anthem verify --equivalence external a.lp=`p(X) :- t(X). t(X) :- q(X).` b.lp=`p(X) :- q(X), not u(X).` g.ug=`input: q/1. output: p/1. output: r/1.` o.po=`{outline}`  [{why}]");
         let (rc, err, problems) = match run_verify(&["--equivalence", "external"], &files) { Ok(x) => x, Err(e) => { fails.push(Failure { property: "harness", input, detail: e }); return; } };
         if refused {
             if rc == 0 || !problems.is_empty() { fails.push(Failure { property: "C13", input, detail: format!("the outline must be rejected, but anthem exits with {rc} and emits {} problems", problems.len()) }); }
